@@ -1123,3 +1123,124 @@ Print Assumptions local_insert_gap_shape.
 Print Assumptions local_insert_not_before_tombstones.
 Print Assumptions split_gap_right_head_not_deleted.
 Print Assumptions split_gap_live_prefix.
+
+(* ====================================================================== *)
+(* 8. direct insertion (XML children)                                      *)
+(* ====================================================================== *)
+
+(* origin / right origin of the created unit: the two neighbours of the gap [split_live] designates *)
+Lemma local_op_direct_origins : forall key l i newid c a b, split_live i l = (a, b) ->
+  oorigin (local_op_direct key l i newid c) = last_id a /\
+  ororigin (local_op_direct key l i newid c) = head_id b.
+Proof. intros key l i newid c a b Hs. unfold local_op_direct. rewrite Hs. split; reflexivity. Qed.
+
+(* the new item lands exactly in the gap [split_live] designates: immediately after the i-th live
+   unit, before any tombstones that follow it *)
+Theorem local_insert_direct_position : forall key l i newid c a b,
+  NoDup (map did l) -> split_live i l = (a, b) ->
+  (i = 0 \/ exists a' y, a = a' ++ [y]) ->
+  local_insert_direct key l i newid c = a ++ mkditem (local_op_direct key l i newid c) false :: b.
+Proof.
+  intros key l i newid c a b Hnd Hs _.
+  pose proof (split_live_app _ _ _ _ Hs) as Hl.
+  destruct (local_op_direct_origins key l i newid c a b Hs) as [Ho Hr].
+  unfold local_insert_direct. apply yata_insert_at_gap; assumption.
+Qed.
+
+Theorem local_insert_direct_refines : forall key l i newid c,
+  NoDup (map did l) -> ~ In newid (map did l) ->
+  i <= length (filter live l) ->
+  live (mkditem (local_op_direct key l i newid c) false) = true ->
+  contents (local_insert_direct key l i newid c) = firstn i (contents l) ++ c :: skipn i (contents l).
+Proof.
+  intros key l i newid c Hnd _ L Hlive.
+  destruct (split_live i l) as [a b] eqn:Hs.
+  rewrite (local_insert_direct_position key l i newid c a b Hnd Hs (split_live_shape _ _ _ _ Hs L)).
+  pose proof (split_live_app _ _ _ _ Hs) as Hl.
+  pose proof (split_live_count _ _ _ _ Hs L) as Hc.
+  rewrite contents_app, contents_cons_live by exact Hlive.
+  assert (Ec : ocont (d_op (mkditem (local_op_direct key l i newid c) false)) = c).
+  { unfold local_op_direct. rewrite Hs. reflexivity. }
+  rewrite Ec.
+  assert (Hcl : contents l = contents a ++ contents b) by (rewrite Hl; apply contents_app).
+  rewrite Hcl.
+  destruct (firstn_skipn_at _ (contents a) (contents b) i) as [Ef Es].
+  { rewrite contents_length. exact Hc. }
+  rewrite Ef, Es. reflexivity.
+Qed.
+
+(* liveness of the created unit only depends on the content *)
+Lemma local_op_direct_live : forall key l i newid c,
+  live (mkditem (local_op_direct key l i newid c) false) =
+  match c with UDeleted | UFormat _ _ => false | _ => true end.
+Proof.
+  intros key l i newid c. unfold live, countable, local_op_direct.
+  destruct (split_live i l) as [a b]. reflexivity.
+Qed.
+
+(* a non-countable unit leaves the contents unchanged *)
+Theorem local_insert_direct_uncountable : forall key l i newid c,
+  NoDup (map did l) -> i <= length (filter live l) ->
+  live (mkditem (local_op_direct key l i newid c) false) = false ->
+  contents (local_insert_direct key l i newid c) = contents l.
+Proof.
+  intros key l i newid c Hnd L Hlive.
+  destruct (split_live i l) as [a b] eqn:Hs.
+  rewrite (local_insert_direct_position key l i newid c a b Hnd Hs (split_live_shape _ _ _ _ Hs L)).
+  pose proof (split_live_app _ _ _ _ Hs) as Hl.
+  rewrite contents_app, contents_cons_dead by exact Hlive.
+  assert (Hcl : contents l = contents a ++ contents b) by (rewrite Hl; apply contents_app).
+  rewrite Hcl. reflexivity.
+Qed.
+
+Theorem local_insert_direct_ids : forall key l i newid c,
+  Permutation (newid :: map did l) (map did (local_insert_direct key l i newid c)).
+Proof.
+  intros key l i newid c. unfold local_insert_direct.
+  set (x := mkditem (local_op_direct key l i newid c) false).
+  assert (E : did x = newid).
+  { unfold x, did, local_op_direct. destruct (split_live i l). reflexivity. }
+  rewrite <- E. change (did x :: map did l) with (map did (x :: l)).
+  apply Permutation_map. apply yata_insert_perm.
+Qed.
+
+Theorem local_insert_direct_NoDup : forall key l i newid c,
+  NoDup (map did l) -> ~ In newid (map did l) ->
+  NoDup (map did (local_insert_direct key l i newid c)).
+Proof.
+  intros key l i newid c Hnd Hf. eapply Permutation_NoDup; [apply local_insert_direct_ids|].
+  constructor; assumption.
+Qed.
+
+(* both lookups show the same contents; they differ only in the position among tombstones *)
+Theorem local_insert_direct_same_contents : forall key l i newid c,
+  NoDup (map did l) -> i <= length (filter live l) ->
+  contents (local_insert_direct key l i newid c) = contents (local_insert key l i newid c).
+Proof.
+  intros key l i newid c Hnd L.
+  destruct (live (mkditem (local_op key l i newid c) false)) eqn:E.
+  - assert (E' : live (mkditem (local_op_direct key l i newid c) false) = true)
+      by (rewrite local_op_direct_live; rewrite local_op_live in E; exact E).
+    destruct (split_live i l) as [a b] eqn:Hs.
+    rewrite (local_insert_direct_position key l i newid c a b Hnd Hs (split_live_shape _ _ _ _ Hs L)).
+    destruct (split_gap i l) as [a2 b2] eqn:Hg.
+    rewrite (local_insert_position key l i newid c a2 b2 Hnd Hg (split_gap_shape _ _ _ _ Hg L)).
+    destruct (split_gap_decompose _ _ _ _ Hg) as (a0 & d & Hs' & Ea & Hd & _).
+    rewrite Hs in Hs'. inversion Hs'; subst.
+    assert (Hcd : contents d = []) by (unfold contents; rewrite (filter_live_all_deleted d Hd); reflexivity).
+    rewrite !contents_app, !contents_cons_live by assumption. rewrite !contents_app, Hcd.
+    cbn [app]. rewrite app_nil_r.
+    f_equal. f_equal. unfold local_op_direct, local_op. rewrite Hs, Hg. reflexivity.
+  - assert (E' : live (mkditem (local_op_direct key l i newid c) false) = false)
+      by (rewrite local_op_direct_live; rewrite local_op_live in E; exact E).
+    rewrite local_insert_direct_uncountable, local_insert_uncountable by assumption. reflexivity.
+Qed.
+
+Print Assumptions local_op_direct_origins.
+Print Assumptions local_insert_direct_position.
+Print Assumptions local_insert_direct_refines.
+Print Assumptions local_op_direct_live.
+Print Assumptions local_insert_direct_uncountable.
+Print Assumptions local_insert_direct_ids.
+Print Assumptions local_insert_direct_NoDup.
+Print Assumptions local_insert_direct_same_contents.
